@@ -2,7 +2,7 @@
    Property theorems only; proofs are in Batch/Proofs*.v and Batch/Theorems.v.  "reachable q b s": some event trace of
    the acceptor LTS (any number of threads, any interleaving) leads from the initial state with max_queue_size q and
    max_export_batch_size b to s. *)
-From V Require Import Batch.Model Batch.ProofsA Batch.ProofsB Batch.Theorems.
+From V Require Import Batch.Model Batch.Glue Batch.Spec Batch.ProofsA Batch.ProofsB Batch.Theorems Batch.TraceSpec.
 From Coq Require Import List Arith.
 Import ListNotations.
 
@@ -40,6 +40,12 @@ Theorem c01_producer_never_blocks : forall s t, t <> 0 ->
   end.
 Proof. exact batch_producer_never_blocks. Qed.
 Print Assumptions c01_producer_never_blocks.
+
+(* every trace the acceptor accepts passes the drop-legitimacy checker that ./check runs on the implementation's traces *)
+Theorem c01_accepted_trace_meets_drop_spec : forall q b tr s,
+  run (init q b) tr = Some s -> c01_drop_only_when_full q (pevs tr) = [].
+Proof. exact accepted_trace_meets_spec_c01_drop. Qed.
+Print Assumptions c01_accepted_trace_meets_drop_spec.
 
 Theorem c01_nonvacuous : exists s, run (init 1 1) demo_trace = Some s /\ In (2, 1, true) (fl_done s) /\ sh_done s <> [] /\
   dropped s = [12] /\ exported s = [[11]].
